@@ -65,9 +65,13 @@ def main():
     if sys.argv[1] == "all":
         tier = sys.argv[2] if len(sys.argv) > 2 else "quick"
         table = {}
+        rp = os.path.join(SEEDED, f"RESULTS.{tier}.json")
+        if "--new" in sys.argv and os.path.exists(rp):
+            table = json.load(open(rp))  # keep earlier results, run only the changes not yet listed
         for sid in sorted(os.listdir(SEEDED)):
-            if os.path.exists(os.path.join(SEEDED, sid, "meta.json")):
+            if os.path.exists(os.path.join(SEEDED, sid, "meta.json")) and sid not in table:
                 table[sid] = run_one(sid, tier)
+                json.dump(table, open(rp, "w"), indent=1)
         json.dump(table, open(os.path.join(SEEDED, f"RESULTS.{tier}.json"), "w"), indent=1)
         caught = sum(1 for v in table.values() if v and any(x["exit"] == 1 for x in v.values()))
         print(f"caught {caught} of {len(table)}")
